@@ -6,32 +6,32 @@ CONSTANTS
   ExtraP = {"cmd"}
   CmdP = {"cmd"}
   DescCmds = {"cmd", "stop", "_stop"}
-  Wires = {"w1", "wbad"}
-  ValidW = {"w1"}
-  ValidWB = {}
-  Variants = {"a"}
-  OtherDescs = {}
-  ENames = {"HardwareError", "Bogus"}
+  Wires = {"w1", "w2"}
+  ValidW = {"w1", "w2"}
+  ValidWB = {"w2"}
+  Variants = {"a", "b"}
+  OtherDescs <- GenInit
+  ENames = {"HardwareError"}
   KnownE = {"HardwareError"}
   Texts = {"t1"}
   PrefTexts = {}
   PrefClass = "RangeError"
   PrefRest = "t1"
   Stamps = {999}
-  MaxNow = 0
-  Shapes = {"ok", "short"}
+  MaxNow = 2
+  Shapes = {"ok"}
   LevelKinds = {"node", "module", "param"}
-  Kinds = {"updateEvent", "updateItem"}
-  Behs = {"ok", "oneshot", "raise"}
-  ErrBehs = {"raise"}
+  Kinds = {"updateItem"}
+  Behs = {"ok"}
+  ErrBehs = {}
   InitDescs <- GenInit
   Descs <- GenInit
-  GIdents <- GIdentsC
-  GActions = {"update", "error_update"}
-  GLevels <- GLevelsC
+  GIdents <- GIdentsI
+  GActions = {"update", "changed"}
+  GLevels <- GLevelsE
   EmitOneIn = 1
   MaxCbs = 3
-  MaxWait = 1
+  MaxWait = 0
   Depth = 3
 CONSTRAINT GBound
 INVARIANT Emit1
